@@ -118,7 +118,11 @@ def main():
             meta = json.load(open(os.path.join(d, "meta.json")))
             r = evaluate_mutant(os.path.join(d, "patch.diff"), meta["property"], demo=os.path.join(d, "demo.py"))
             results.append(r)
-            ok &= bool(r.get("caught")) and r.get("replay_reproduces_on_mutant", False) and r.get("replay_clean_on_unchanged_tree", False)
+            if meta.get("verif", {}).get("expected_not_caught"):
+                r["expected_not_caught"] = True  # recorded as outside the claimed properties (see meta.json)
+                ok &= not r.get("caught")
+            else:
+                ok &= bool(r.get("caught")) and r.get("replay_reproduces_on_mutant", False) and r.get("replay_clean_on_unchanged_tree", False)
             print(json.dumps(r), flush=True)
     elif args and args[0] == "mutants":
         for p in sorted(glob.glob(os.path.join(HERE, "selftest", "mutants", "*.patch"))):
